@@ -1,3 +1,5 @@
+//go:build verif_c14
+
 package main
 
 // C14 mutation space: corpus of valid packages (generated through the API +
